@@ -68,6 +68,8 @@ class CapturedPath:
         for subpath_item in reversed(subpath):
           path, prev_edge = self._push_item_on_se_path(path, prev_edge,
               subpath_item.inverted())
+        # the reversed subpath ends with the first segment of the subpath
+        prev_edge_subpath = item.line._is_se_path_end_from_edge(False)
       prev_edge = prev_edge_subpath
     elif isinstance(item.line, gfapy.line.unknown.Unknown):
       raise gfapy.RuntimeError(
@@ -81,6 +83,13 @@ class CapturedPath:
         "Error: items of type {} are not supported\t".format(item.line.__class__.__name__)+
         "Unsupported item: {}".format(item))
     return path, prev_edge
+
+  def _is_se_path_end_from_edge(self, last):
+    # is the first (or last) segment of the captured path implied by an edge?
+    item = self.items[-1 if last else 0]
+    if isinstance(item.line, gfapy.line.group.Ordered):
+      return item.line._is_se_path_end_from_edge(last == (item.orient == "+"))
+    return isinstance(item.line, gfapy.line.edge.GFA2)
 
   def _push_first_edge_on_se_path(self, path, items):
     oriented_edge = items[0]
